@@ -8,6 +8,8 @@ pub struct Message {
     pub body: MessageBody,
 }
 //@end
+// TRUSTED: #[derive(Clone)] on Message (message.rs) yields an equal value
+impl Clone for Message { #[verifier::external_body] fn clone(&self) -> (r: Message) ensures r == *self { unimplemented!() } }
 //@begin type src/message.rs - enum MessageBody
 pub enum MessageBody {
     Request(Request),
